@@ -97,7 +97,7 @@ theorem wf_keyMgmtAttr (k : Option Bytes) : ∀ a ∈ keyMgmtAttr k, WfAttr a :=
     · revert c; decide
     · exact lineCh_of_plain (plain_b64 enc c hc)
 
-theorem wf_marshalMedia (O : Oracle) (ab : Bool) (m : Media) (hm : ValidMedia O m) : WfMedia (marshalMedia ab m) where
+theorem wf_marshalMedia (O : Oracle) (ab : Bool) (m : Media) (hm : GoodMedia O m) : WfMedia (marshalMedia ab m) where
   type_ok := hm.type_ok
   type_nosp := fun c hc => (hm.type_chars c hc).1
   type_ascii := fun c hc => (hm.type_chars c hc).2
@@ -141,7 +141,7 @@ theorem wf_marshalMedia (O : Oracle) (ab : Bool) (m : Media) (hm : ValidMedia O 
       · subst ha
         exact wfAttr_of (by decide) (by decide) (by intro c hc; revert c; decide)
           (fun c hc => ⟨(hm.control_ok c hc).2.2, (hm.control_ok c hc).1, (hm.control_ok c hc).2.1⟩)
-    · exact wf_formatAttrs (fmtTextOk (hm.formats_ok f hf)) a ha
+    · exact wf_formatAttrs (hm.formats_ok f hf).1 a ha
     · simp only [postAttrs] at ha
       split at ha
       · simp only [List.mem_singleton] at ha
@@ -149,7 +149,7 @@ theorem wf_marshalMedia (O : Oracle) (ab : Bool) (m : Media) (hm : ValidMedia O 
         exact wfAttr_of (by decide) (by decide) (by intro c hc; revert c; decide) (by intro c hc; simp at hc)
       · simp at ha
 
-theorem wf_marshalDoc (O : Oracle) (s : Session) (hs : ValidSession O s) : WfDoc (marshalDoc s) where
+theorem wf_marshalDoc (O : Oracle) (s : Session) (hs : GoodSession O s) : WfDoc (marshalDoc s) where
   name_nonl := by
     intro c hc
     simp only [marshalDoc] at hc
@@ -192,11 +192,15 @@ theorem wf_marshalDoc (O : Oracle) (s : Session) (hs : ValidSession O s) : WfDoc
     obtain ⟨m0, hm0, rfl⟩ := hm
     exact wf_marshalMedia O _ m0 (hs.medias_ok m0 hm0)
 
-/-- **C05, the round trip**: marshalling a valid session to SDP text and parsing the text gives the session. -/
-theorem unmarshal_marshal (O : Oracle) (multicast : Bool) (s : Session) (hs : ValidSession O s) :
+/-- the round trip for good sessions -/
+theorem unmarshal_marshal_good (O : Oracle) (multicast : Bool) (s : Session) (hs : GoodSession O s) :
     unmarshal O (marshal multicast s) = .ok s := by
   unfold unmarshal marshal
   rw [parse_render multicast _ (wf_marshalDoc O s hs)]
   exact unmarshalDoc_marshal O s hs
+
+/-- **C05, the round trip**: marshalling a valid session to SDP text and parsing the text gives the session. -/
+theorem unmarshal_marshal (O : Oracle) (multicast : Bool) (s : Session) (hs : ValidSession O s) :
+    unmarshal O (marshal multicast s) = .ok s := unmarshal_marshal_good O multicast s (goodSession_of_valid hs)
 
 end Rtsp.Sdp
